@@ -63,10 +63,13 @@ def run_case(case):
     fam = case.get('family')
     if ident == 'tvd-unit':
         fam = 'uniform'
-    faces, meta = gen.gen_grid(rng, cls, nmin=1, nmax=nmax, family=fam)
+    gfam, gopts = gen.geo_opts(rng, case.get('geo'))
+    faces, meta = gen.gen_grid(rng, cls, nmin=1 if not case.get('geo') else 2, nmax=nmax, family=gfam or fam, opts=gopts)
     g = Geom(cls, faces)
     m = gen.build_mesh(pf, cls, faces)
     cov = {'ident:%s:%s' % (ident, cls): 1}
+    if case.get('geo'):
+        cov['geo:' + case['geo']] = 1
     maxerr = {}
     bad = []
     rows = interior_index(g.dims)
@@ -195,6 +198,13 @@ def plan(tier, seed):
                 cases.append({'cls': cls, 'ident': ident, 'seed': [seed, 5, ci, i], 'family': gen.FAMILIES[rep % 5] if rep % 2 else None,
                               'ufam': ['sign', 'random', 'sign', 'const'][rep % 4], 'big': (rep % 6 == 5), 'deep': tier == 'thorough' and rep % 4 == 0})
                 i += 1
+        for ident in IDENTS:
+            if ident == 'tvd-unit':
+                continue
+            for rep in range(3 if tier == 'quick' else 30):     # tiny / huge length units, almost-uniform spacing
+                cases.append({'cls': cls, 'ident': ident, 'seed': [seed, 5, ci, i], 'geo': ['nano', 'jitter', 'mega'][rep % 3],
+                              'ufam': ['sign', 'random'][rep % 2]})
+                i += 1
         for li, name in enumerate(LIMITERS + ['const1']):
             for rep in range(1 if tier == 'quick' else 12):
                 if name == 'const1':
@@ -213,6 +223,9 @@ def floors(agg, tier):
         for ident in IDENTS + ['tvd-flux']:
             if agg['cov'].get('ident:%s:%s' % (ident, cls), 0) < 5:
                 out.append('ident:%s:%s < 5' % (ident, cls))
+    for geo in ('nano', 'jitter', 'mega'):
+        if agg['cov'].get('geo:' + geo, 0) < 30:
+            out.append('geo:%s < 30' % geo)
     if agg['cov'].get('basis_columns', 0) < 2000:
         out.append('basis_columns < 2000')
     return out
